@@ -4,11 +4,11 @@ S = "src/biotite/structure/"
 STUBS = ["REAL-number semantics: numpy replaced inside the loaded modules by vf/sx/rnp.py (arrays of exact rationals with symbolic numerators: broadcasting arithmetic, comparisons, symbolic boolean masks, newaxis/ellipsis indexing, sum over the last axis, matmul, argmin + row selection); float rounding does not exist there",
          "numpy.linalg.inv of a concrete cell -> its exact rational inverse", "atoms.coord() -> identity on arrays"]
 OBLIGATIONS = [
-    SX("sx_displacement", "sx_c15", "ob_displacement", cls="S", quick=600, thorough=1800, parts={"quick": 5, "thorough": 6},
+    SX("sx_displacement", "sx_c15", "ob_displacement", cls="S", quick=600, thorough=1800, parts={"quick": 16, "thorough": 16},
        functions=[S + "geometry.py:displacement", S + "geometry.py:_displacement_orthogonal_box", S + "geometry.py:_displacement_triclinic_box",
                   S + "box.py:coord_to_fraction", S + "box.py:fraction_to_coord", S + "box.py:is_orthogonal", S + "util.py:vector_dot"],
        stubs=STUBS,
-       bounds="5 (thorough 6) concrete cells (orthorhombic, cubic, 3-4 triclinic), p = 0, q = every point m/8 with |m| <= 200 (1000) per axis, symbolic: displacement(p, q, box) - (q - p) is an integer combination of the cell vectors; for orthorhombic cells |d|^2 <= |d + M|^2 for every lattice vector M within +-2 cells"),
+       bounds="without a box: all 5 combinations of argument shapes (3,), (2,3), (1,2,3): displacement == q - p row by row. With a box: 6 (thorough 7) concrete cells (orthorhombic, cubic, rotated orthorhombic, 3-4 triclinic), one point pair, q = every point m/8 with |m| <= 200 (1000) per axis symbolic; 3 cells x 3 mixed-shape combinations with two point pairs (|m| <= 40): displacement - (q - p) is an integer combination of the cell vectors; for orthorhombic cells (any orientation) |d|^2 <= |d + M|^2 for every lattice vector M within +-2 cells"),
     SX("sx_triclinic_kernel", "sx_c15", "ob_triclinic_kernel", cls="S", quick=600, thorough=1800, parts={"quick": 4, "thorough": 4},
        functions=[S + "geometry.py:_displacement_triclinic_box", S + "box.py:fraction_to_coord", S + "util.py:vector_dot"],
        stubs=STUBS,
